@@ -109,7 +109,7 @@ func init() {
 	register(&Prop{
 		ID:    "C07",
 		Level: "model_checking",
-		Rule: "bounded-exhaustive table against the reference definitions: for each measure, every ordered pair of column pairs ((x1,y1),(x2,y2)) over the 17-symbol alphabet (83 521 sequence pairs) appended to a 12-column backbone containing all four bases, one transition and one transversion (289 targets per call, read back from `closest -n 289 --table`), with the target in upper, lower and mixed case; plus all 289 single-column pairs and all 289^2/… two-column pairs without backbone for raw/snp. " +
+		Rule: "bounded-exhaustive table against the reference definitions: for each measure, every ordered pair of column pairs ((x1,y1),(x2,y2)) over the 17-symbol alphabet (83 521 sequence pairs) appended to a 12-column backbone containing all four bases, one transition and one transversion (289 targets per call, read back from `closest -n 289 --table`), with the target in upper, lower and mixed case; plus 289 single-target calls per measure in sequence (history independence), all 289 single-column pairs and all 289^2/… two-column pairs without backbone for raw/snp. " +
 			"A case is one (measure, query, target); non-trivial = the definition gives a defined distance (pairs whose raw distance is 0/0 or whose tn93 logarithms/frequencies are undefined are run but not judged); each generated once",
 		Assumptions: []string{
 			"tn93: Tamura & Nei 1993 eq. 7 over columns where both are A/C/G/T, base frequencies from the target's A/C/G/T counts; compared numerically with |delta| <= 1.5e-9 (9 printed decimals)",
@@ -125,7 +125,7 @@ func init() {
 					jobs = append(jobs, fmt.Sprintf("tab:%s:%d", m, r))
 				}
 			}
-			jobs = append(jobs, "bare:raw", "bare:snp", "cli")
+			jobs = append(jobs, "bare:raw", "bare:snp", "single:raw", "single:snp", "single:tn93", "cli")
 			return jobs, nil
 		},
 		Exec: func(tier, job string) *engine.JobResult {
@@ -155,12 +155,31 @@ func init() {
 					for _, y := range pairs {
 						ts = append(ts, caseMode(c07BackT+y, mode))
 					}
+					if r%2 == 1 {
+						// the same targets in reverse file order: a distance must not depend on where in the file
+						// (or after which other file) a target comes
+						for i, j := 0, len(ts)-1; i < j; i, j = i+1, j-1 {
+							ts[i], ts[j] = ts[j], ts[i]
+						}
+					}
 					c := c07Case{p[1], q, ts}
 					c07Check(c, res, true)
 					res.States += len(ts) + 1
 					if r == 34 {
 						res.Sample(c07Case{p[1], q, ts[:3]})
 					}
+				}
+			case "single":
+				// one target per call, a different one each time: a distance must not depend on what the
+				// process computed before (history independence)
+				q := c07BackQ + "AC"
+				for i, y := range pairs {
+					t := caseMode(c07BackT+y, i%3)
+					if i%7 == 0 {
+						t = strings.Repeat("A", 6) + strings.Repeat("C", 3) + "GGT" + y // other base frequencies
+					}
+					c07Check(c07Case{p[1], q, []string{t}}, res, false)
+					res.States++
 				}
 			case "bare":
 				for _, x := range pairs {
